@@ -65,6 +65,28 @@ type run struct {
 	final   bool
 	avoid   map[string]bool
 	guard   bool // avoidance guard for the known pending-resolution deadlock is active in this run
+	lent    []*lentClient
+}
+
+// lentClient is a pipelined client obtained from Future.Client (borrowed reference).
+type lentClient struct {
+	c          *capnp.Client
+	pm         *promM
+	path       string
+	wasPromise bool
+	task       int
+}
+
+// chainReturned reports whether every resolver operation on pm's join chain has returned.
+func (r *run) chainReturned(pm *promM) bool {
+	for q := pm; ; q = q.joinTo {
+		if !q.returned {
+			return false
+		}
+		if q.kind != 2 {
+			return true
+		}
+	}
 }
 
 func (r *run) via(pm *promM, d int) {
@@ -377,7 +399,33 @@ func (r *run) worker(id int, nops int) {
 	for i := 0; i < nops && !s.Failed(); i++ {
 		r.ops++
 		pm := r.proms[s.Choice("prom", len(r.proms))]
-		switch op := s.Choice("op", 9); op {
+		switch op := s.Choice("op", 10); op {
+		case 9: // call again through a pipelined client borrowed earlier (valid until ReleaseClients on its promise)
+			var mine []*lentClient
+			for _, lc := range r.lent {
+				if lc.task == id && !lc.pm.rcInvoked && !lc.pm.rcWanted {
+					mine = append(mine, lc)
+				}
+			}
+			if len(mine) == 0 {
+				continue
+			}
+			lc := mine[s.Choice("lent", len(mine))]
+			if r.guard && r.resolvingInComponent(lc.pm) {
+				continue
+			}
+			s.Probe("reuse_pipelined_client")
+			r.borrow(lc.pm, +1)
+			cr := r.newCall(lc.pm, nil)
+			cr.path = lc.path
+			cr.viaClient = true
+			r.via(lc.pm, +1)
+			ans, rel := lc.c.SendCall(context.Background(), capnp.Send{Method: capnp.Method{InterfaceID: uint64(cr.id)}})
+			r.via(lc.pm, -1)
+			_, err := ans.Struct()
+			rel()
+			r.finishCall(cr, err)
+			r.borrow(lc.pm, -1)
 		case 0, 1: // PipelineSend
 			t := r.pickTransform()
 			cr := r.newCall(pm, t)
@@ -402,7 +450,8 @@ func (r *run) worker(id int, nops int) {
 			}
 			r.finishCall(cr, fr.err)
 		case 3, 4: // Future.Client() on a path, then use the borrowed client
-			if pm.rcInvoked || pm.rcWanted || staticEnd(pm).rcInvoked || r.anyRCInComponent(pm) {
+			if pm.rcInvoked || pm.rcWanted {
+				// a client borrowed from pm's answer is only valid until ReleaseClients(pm)
 				continue
 			}
 			t := r.pickTransform()
@@ -418,7 +467,22 @@ func (r *run) worker(id int, nops int) {
 			s.Logf("task %d Future.Client on P%d path %q", id, pm.id, pathKey(t))
 			c := f.Client()
 			s.Logf("task %d Future.Client on P%d path %q returned", id, pm.id, pathKey(t))
-			switch s.Choice("use", 3) {
+			lc := &lentClient{c: c, pm: pm, path: pathKey(t), task: id}
+			if c != nil {
+				lc.wasPromise = c.State().IsPromise
+				r.lent = append(r.lent, lc)
+			}
+			switch s.Choice("use", 4) {
+			case 3: // wait for the pipelined client to resolve (only once its whole chain has been resolved)
+				if c != nil && r.chainReturned(pm) {
+					s.Probe("resolve_on_pipelined_client")
+					if err := c.Resolve(context.Background()); err != nil {
+						s.Fail("pipelined_client_unresolved", "answer.go:(*Future).Client", fmt.Sprintf("Resolve on the pipelined client of P%d path %q failed: %v", pm.id, lc.path, err))
+					}
+					if c.State().IsPromise {
+						s.Fail("pipelined_client_unresolved", "answer.go:(*Future).Client", fmt.Sprintf("pipelined client of P%d path %q is still a promise after its answer resolved", pm.id, lc.path))
+					}
+				}
 			case 0: // call through the borrowed client
 				if r.guard && r.resolvingInComponent(pm) {
 					break
@@ -544,9 +608,7 @@ func (r *run) anyRCInComponent(pm *promM) bool {
 }
 
 func (r *run) borrow(pm *promM, d int) {
-	for _, q := range r.component(pm) {
-		q.borrowedUse += d
-	}
+	pm.borrowedUse += d
 }
 
 func (r *run) releaseClients(task int, pm *promM) {
@@ -655,6 +717,12 @@ func (Engine) Run(t *testing.T, tape *simrt.Tape, opt worker.Options) *worker.Ou
 		for _, cr := range r.calls {
 			if !cr.done {
 				s.Fail("call_not_completed", "answer.go:PipelineSend", fmt.Sprintf("call %d never completed", cr.id))
+			}
+		}
+		// pipelined clients handed out before resolution must have been released by ReleaseClients
+		for _, lc := range r.lent {
+			if lc.wasPromise && lc.c.IsValid() {
+				s.Fail("pipelined_client_not_released", "answer.go:(*Promise).ReleaseClients", fmt.Sprintf("pipelined client of P%d path %q is still valid after ReleaseClients ran on every promise", lc.pm.id, lc.path))
 			}
 		}
 		// drop the result messages: their capability tables hold the last references
